@@ -6,6 +6,8 @@ C23 checker.  Ops:
   `agg <numNodes> <from>/<cls> …`   hook `VerifStreamKeyResp` (the real `streamKeyResp` on a pre-filled, closed channel)
         cls = `T<payload>` (empty or wrong type byte) | `U<payload>` (right type byte, does not decode)
             | `D<0|1>/<msg>/<primary>/<key>.<key>…` (`_` = no keys) payload built by the real encoder
+            | `R<payload>/D<0|1>/<msg>/<primary>/<keys>` a hand-encoded msgpack map that omits some fields
+              (an older or minimal reply), followed by what it decodes to — absent fields are zero values
         → `<numResp> <numErr> k=<key:n,…> p=<key:n,…> m=<from:I|F|M<msg>,…>` (sorted, `-` = empty)
   `listkeys <flavour>`              a real node (recording transport, own packets looped back) runs `ListKeys()`
         → `<numNodes> <numResp> <numErr> err=<none|fail:e/n|miss:r/n|other> k=<key:n,…> p=<key:n,…>`
@@ -40,6 +42,10 @@ def parsePayload (parts : List String) : Option Payload :=
     | 'T' :: _ => some .badType
     | 'U' :: _ => some .undecodable
     | _ => none
+  | [r, d, msg, prim, keys] =>
+    -- `R<payload>`: a hand-encoded msgpack map that may OMIT fields; what follows is what it decodes to
+    -- (absent fields are zero values: Result false, Message "", no keys, PrimaryKey "")
+    if r.startsWith "R" then parsePayload [d, msg, prim, keys] else none
   | [d, msg, prim, keys] =>
     let res := if d == "D1" then some true else if d == "D0" then some false else none
     let ks : Option (List String) := if keys == "_" then some [] else (keys.splitOn ".").mapM stringOfHex?
